@@ -172,7 +172,7 @@ class Executor:
             rec["warn"] = [list(x) for x in w.warnings]
             rec["fired"] = w.fired
             rec["mon"] = w.monitor()
-            if not (rec["mon"]["showwarning_ok"] and rec["mon"]["reclimit_ok"]):
+            if not (rec["mon"]["showwarning_ok"] and rec["mon"]["reclimit_ok"] and rec["mon"]["filters_ok"]):
                 # keep later ops judged on their own merits
                 w.repair_globals()
             rec["clock"] = fl(w.clock)
